@@ -38,7 +38,7 @@ EXPLANATION = (
 )
 NONTRIVIAL_RULE = "had at least one timer armed and one stimulus or expiry processed"
 BOUNDS = {
-    "after_schedule": "machine TM; delays d1,d2 in [0,40] ms, slow action a in [0,40] ms, stimuli at t1<=t2 in [0,60] ms of kind in {LEAVE,RE,NOP,BACK,STOP,BAD (an aborted, rolled-back transition between children of S), NRE / NLB (batches: slow action, then leave + re-enter)} (first kind fixed per item; async: both kinds fixed per item), guard of the second timer symbolic; observation window 260 ms; both engines",
+    "after_schedule": "machine TM; delays d1,d2 in [0,40] ms, slow action a in [0,40] ms, stimuli at t1<=t2 in [0,60] ms of kind in {LEAVE,RE,NOP,BACK,STOP,BAD (an aborted, rolled-back transition between children of S), NRE / NLB (batches: slow action, then leave + re-enter)} (first kind fixed per item; async: both kinds fixed per item), guard of the second timer symbolic; observation window 280 ms; both named delays grow by 3 ms per activation (computed delays are resolved at each entry); both engines",
 }
 ASSUMPTIONS = [
     "virtual time: VLoop (async) jumps to the next deadline when nothing is runnable; vthreading (sync) runs a timer thread's body atomically at its deadline, between harness calls or inside the slow action",
@@ -53,7 +53,8 @@ KINDS = ["LEAVE", "RE", "NOP", "BACK", "STOP", "BAD", "NRE", "NLB"]
 BATCH = {"NRE": ["NOP", "RE"], "NLB": ["NOP", "LEAVE", "BACK"]}
 CTL: Dict[str, Any] = {}
 _M: Dict[str, Any] = {}
-HORIZON = 260     # ms: two stimuli (<= 60 ms) + up to three slow actions (<= 40 ms each) + the longest delay (40 ms), with room
+STEP = 3          # ms added to both named delays per activation of S: a computed delay must be re-resolved at every entry
+HORIZON = 280     # ms: two stimuli (<= 60 ms) + up to three slow actions (<= 40 ms each) + the longest delay (40 ms), with room
 
 
 def _note(m: str) -> None:
@@ -124,9 +125,16 @@ def _machine(eng: int) -> Any:
 
         env.install()
         acts = {n: _act(n) for n in ("S.en", "S.ex", "fire1", "fire2", "O.en", "T.en", "U.en")}
+
+        def s_en(i: Any, c: Any, e: Any, a: Any) -> None:
+            CTL["n_en"] = CTL.get("n_en", 0) + 1
+            _log("act", "S.en")
+
+        acts["S.en"] = s_en
         acts["slow"] = _slow_sync if eng == 0 else _slow_async
         logic = make_logic(actions=acts, guards={"gU": lambda c, e: bool(CTL["gU"])},
-                           delays={"D1": lambda c, e: CTL["d1"], "D2": lambda c, e: CTL["d2"]})
+                           delays={"D1": lambda c, e: CTL["d1"] + STEP * (CTL.get("n_en", 1) - 1),
+                                   "D2": lambda c, e: CTL["d2"] + STEP * (CTL.get("n_en", 1) - 1)})
         m = create_machine(tm_config(), logic=logic)
         env.pin_hashes(m)
         _M[key] = m
@@ -268,7 +276,7 @@ def _check(log: List[Any], d1: Any, d2: Any, a: Any, gU: Any, stopped_at: Any, p
             if last_exit_idx is None or acts[last_exit_idx][1] != t:
                 return f"{what} at {t} although S was not being left by it"
             te = acts[last_exit_idx][0]
-            d = (d1 if what == "fire1" else d2) / 1000.0
+            d = ((d1 if what == "fire1" else d2) + STEP * last_exit_idx) / 1000.0      # delays are computed at entry (see _machine)
             if t - te < d - 1e-9:
                 return (f"{what} fired at {t * 1000:.3f} ms, only {(t - te) * 1000:.3f} ms after S was (re-)entered at {te * 1000:.3f} ms; "
                         f"its delay is {d * 1000:.3f} ms (a timer of an earlier activation?)")
@@ -287,6 +295,7 @@ def _check(log: List[Any], d1: Any, d2: Any, a: Any, gU: Any, stopped_at: Any, p
         for nm, dd, ok_guard in (("fire1", d1 / 1000.0, True), ("fire2", d2 / 1000.0, bool(gU))):
             if not ok_guard:
                 continue
+            dd = dd + STEP * i / 1000.0       # the i-th activation resolved its (computed) delays to base + STEP * i
             due = te + dd
             other = ("fire2", d2 / 1000.0) if nm == "fire1" else ("fire1", d1 / 1000.0)
             # is this the earlier (or only) enabled timer of the activation?
@@ -329,7 +338,7 @@ def after_schedule(d1: int, d2: int, a: int, t1: int, t2: int, k2: int, gU: bool
     kind2 = P["k2"] if "k2" in P else KINDS[pick(k2, len(KINDS))]
     if not P.get("two_timers", True):
         d2 = 1000  # second timer out of the observation window: one dimension less
-    CTL.update({"d1": d1, "d2": d2, "a": a, "gU": gU, "log": [], "census": []})
+    CTL.update({"d1": d1, "d2": d2, "a": a, "gU": gU, "log": [], "census": [], "n_en": 0})
     stim = [(t1, kind1), (t2, kind2)]
     if kind1 == "STOP":
         stim = [(t1, "STOP")]
